@@ -224,6 +224,28 @@ def correlated_facts(fn, ev, IN, b, ef=None):
             if vname is None:
                 continue
             defs, entry = ev.reaching(dl, (s, "term"))
+            # look through plain moves and `Try::branch` (whose result has the variant index of its argument) to the local that is
+            # assigned the differing variants, as happens when a Result-returning helper was inlined and `?` applied to its value
+            for _hop in range(4):
+                if entry or len(defs) != 1:
+                    break
+                (db0, di0, kind0) = next(iter(defs))
+                src = None
+                if di0 == "term":
+                    tt0 = fn.blocks[db0].term
+                    if tt0["k"] == "call" and (tt0["fn"].get("trait_method") in ("branch", "clone") or tt0["fn"].get("path", "").split("::")[-1] in ("branch", "clone")) and tt0["args"]:
+                        a0 = tt0["args"][0].get("mv") or tt0["args"][0].get("cp")
+                        if a0 and not a0.get("p"):
+                            src = (a0["l"], (db0, "term"))
+                else:
+                    rv0 = fn.blocks[db0].stmts[di0]["rv"]
+                    if rv0["k"] == "use":
+                        a0 = rv0["op"].get("mv") or rv0["op"].get("cp")
+                        if a0 and not a0.get("p"):
+                            src = (a0["l"], (db0, di0))
+                if src is None:
+                    break
+                defs, entry = ev.reaching(src[0], src[1])
             if entry or len(defs) < 2:
                 continue
             cands = []
